@@ -815,3 +815,195 @@ Proof. intros W b H. exact (fB_all W H b). Qed.
 Print Assumptions T02l_block_frame_underscore.
 
 End Coll.
+(* ---------------------------------------------------------------------------------------------- *)
+(* Cls = definition / class rules (RulesClsModel; Part L on MiniPy, Parts O / U / D own fragments). *)
+Require Pyrefact.RulesClsModel Pyrefact.RulesClsProofs.
+Module Cls.
+Import ListNotations.
+Import Pyrefact.MiniPyModel Pyrefact.MiniPyProofs Pyrefact.RulesClsModel Pyrefact.RulesClsProofs.
+
+(* T02k.1  fixes.undefine_unused_variables: an output p' of the rule on p in which every un-assigned
+   assignment `x = e -> e` is dead (x is not live behind it in p', by the liveness analysis lv_block
+   whose loop fixpoints the checker verifies) behaves like p: same outcome, trace and oracle position
+   under every oracle from every state, termination preserved both ways.  uv_ok is evaluated on the
+   real rule's output for every case of the correspondence. *)
+Theorem T02k_undefine_dead_sound :
+  forall n p p', uv_ok n p p' = true -> obs_equiv p p'.
+Proof. exact undefine_dead_sound. Qed.
+Print Assumptions T02k_undefine_dead_sound.
+
+(* T02k.2  the same with a set `out` of variables that are read afterwards (globals) *)
+Theorem T02k_undefine_dead_sound_out :
+  forall n p p' out, ok_block n p p' out [] [] out = true ->
+  forall o st r, runs o st p r ->
+  exists r', runs o st p' r' /\ obs r = obs r' /\
+             (fst r = Normal ->
+              forall x, vmem x out = true -> get (s_env (snd r)) x = get (s_env (snd r')) x).
+Proof. exact undefine_dead_sound_out. Qed.
+Print Assumptions T02k_undefine_dead_sound_out.
+
+(* T02k.3  the rule's own decision on straight-line code (uv_line = _iter_unused_names with
+   code_dependencies_outputs on simple statements; exact correspondence) is behaviour preserving *)
+Theorem T02k_undefine_straight_sound :
+  forall p, forallb simple p = true -> obs_equiv p (uv_line p).
+Proof. exact undefine_straight_sound. Qed.
+Print Assumptions T02k_undefine_straight_sound.
+
+(* T02k.4  un-assigning an assignment that is NOT dead changes the behaviour *)
+Theorem T02k_undefine_live_refuted :
+  exists p p', (exists pre x e post, p = pre ++ SAssign x e :: post /\ p' = pre ++ drop_asg e :: post) /\
+               ~ obs_equiv p p'.
+Proof. exact undefine_live_refuted. Qed.
+Print Assumptions T02k_undefine_live_refuted.
+
+Example T02k_undefine_example :
+  uv_ok 3 [SAssign 0 (RVal (VBool true)); SLoop (HWhile (Unknown 1 [1])) [SAssign 0 (RVar 1); SAssign 1 (RTest (Unknown 2 [0]))] []]
+          [SPass; SLoop (HWhile (Unknown 1 [1])) [SAssign 0 (RVar 1); SAssign 1 (RTest (Unknown 2 [0]))] []] = true.
+Proof. reflexivity. Qed.
+
+
+(* T02k.5  object_oriented.remove_unused_self_cls (after repairs 8b785d2, ba39c5e, 9171c40, bfe9205): the
+   model of the rule -- five passes of rs_pass, as processing.fix runs it -- leaves the run of the module
+   unchanged for every fuel: same trace (events, uses of the first parameter with the object it is bound
+   to), same outcome (exception class).  wf_mod: no class-body alias has the name of a method; no_dyn: no
+   getattr(x, "name") (known finding F02-28). *)
+Theorem T02k_self_cls_sound :
+  forall M, wf_mod M = true -> no_dyn M = true ->
+  forall fuel, run_module fuel (rs_model M) = run_module fuel M.
+Proof. exact self_cls_sound. Qed.
+Print Assumptions T02k_self_cls_sound.
+
+Theorem T02k_self_cls_dynamic_refuted :
+  exists M, wf_mod M = true /\ no_dyn M = false /\ run_module 9 (rs_model M) <> run_module 9 M
+            /\ snd (run_module 9 M) = OOk.
+Proof. exact self_cls_dynamic_refuted. Qed.
+Print Assumptions T02k_self_cls_dynamic_refuted.
+
+(* the code before repair ba39c5e (no "looked up on a class" guard): C.m(x) with an explicit instance *)
+Theorem T02k_self_cls_unguarded_refuted :
+  exists M, wf_mod M = true /\ no_dyn M = true /\ run_module 9 (rs_pass_unguarded M) <> run_module 9 M
+            /\ snd (run_module 9 M) = OOk.
+Proof. exact self_cls_unguarded_refuted. Qed.
+Print Assumptions T02k_self_cls_unguarded_refuted.
+
+Example T02k_self_cls_example :
+  let M := mkMod [IClass (mkCls 1 None [mkMeth 1 KPlain 1 [AEv 1]; mkMeth 2 KPlain 1 [ACall RSelf 1 0]] []);
+                  IClass (mkCls 2 (Some 1) [mkMeth 3 KPlain 1 [AUse; ACall RSuper 2 0]] [])] [] []
+                 [ACall (RNew 2) 3 0] in
+  wf_mod M = true /\ no_dyn M = true /\ rs_model M <> M /\ run_module 20 M = ([TUse (SInst 2); TEv 1], OOk).
+Proof. repeat split; try reflexivity. vm_compute. discriminate. Qed.
+
+(* T02k.6  object_oriented.fix_unconventional_class_definitions (after repair 919078b): for a class that
+   nothing observes while it is created, the output runs like the input: same outcome, log and class
+   attributes.  Hook (decorator / __init_subclass__ / metaclass): refuted, finding F02cls-2. *)
+Theorem T02k_unconventional_sound :
+  forall p, u_hook p = false -> urun (fu_model p) = urun p.
+Proof. exact unconventional_sound. Qed.
+Print Assumptions T02k_unconventional_sound.
+
+Theorem T02k_unconventional_hook_refuted :
+  exists p, u_hook p = true /\ urun (fu_model p) <> urun p.
+Proof. exact unconventional_hook_refuted. Qed.
+Print Assumptions T02k_unconventional_hook_refuted.
+
+(* the code before the repair moved every assignment *)
+Theorem T02k_unconventional_unguarded_refuted :
+  (exists p, u_hook p = false /\ urun (fu_unguarded p) <> urun p /\ fst (fst (urun p)) = true
+             /\ exists a x, u_post p = [(a, VName x)])
+  /\ (exists p, u_hook p = false /\ urun (fu_unguarded p) <> urun p /\ fst (fst (urun p)) = true
+                /\ exists a b, u_post p = [(a, VAttr b)]).
+Proof. exact unconventional_unguarded_refuted. Qed.
+Print Assumptions T02k_unconventional_unguarded_refuted.
+
+
+(* T02k.7  fixes.remove_duplicate_functions / abstractions.hash_node (after repairs 3c7e4a0, 2fc54c7, cd4b981):
+   two functions with the same numbering have the same node types and plain fields at every position of
+   the walk, the same preserved (free) names at the same positions, and their remaining names follow the
+   same pattern (two occurrences in f are one name iff the occurrences at the same positions in g are):
+   g is f with its bound names renamed one-to-one.  Identity, __name__, default values evaluated once and
+   keyword calls are findings F02cls-2, F02-33, F02-34. *)
+Theorem T02k_duplicate_alpha :
+  forall keep1 keep2 l1 l2,
+  canon_go keep1 [] l1 = canon_go keep2 [] l2 ->
+  length l1 = length l2 /\
+  (forall i k, nth_error l1 i = Some (TK k) -> nth_error l2 i = Some (TK k)) /\
+  (forall i x b, nth_error l1 i = Some (TN x b) -> nmem x keep1 = true ->
+                 exists b', nth_error l2 i = Some (TN x b') /\ nmem x keep2 = true) /\
+  (forall i j x b x' b', nth_error l1 i = Some (TN x b) -> nth_error l1 j = Some (TN x' b') ->
+      nmem x keep1 = false -> nmem x' keep1 = false ->
+      exists y c y' c', nth_error l2 i = Some (TN y c) /\ nth_error l2 j = Some (TN y' c') /\
+                        nmem y keep2 = false /\ nmem y' keep2 = false /\ (x = x' <-> y = y')).
+Proof. exact duplicate_alpha. Qed.
+Print Assumptions T02k_duplicate_alpha.
+
+(* the code before repair 3c7e4a0 numbered the free names as well: `len(x)` and `sum(x)` were "equal" *)
+Theorem T02k_duplicate_old_refuted :
+  exists f g, dup_eqb_old [] f g = true /\ dup_eqb [] f g = false /\
+              exists i x y, nth_error f i = Some (TN x false) /\ nth_error g i = Some (TN y false) /\ x <> y
+                            /\ nmem x (bound_names f) = false /\ nmem y (bound_names g) = false.
+Proof. exact duplicate_old_refuted. Qed.
+Print Assumptions T02k_duplicate_old_refuted.
+
+
+(* T02k.8  fixes.delete_unused_functions_and_classes (preserve = {}): the model of the rule -- five passes of
+   du_pass, with the scheduler's "the removal of a method wins over the removal of its class" -- leaves the
+   run of the module unchanged for every fuel.  uniq_cls: class names are distinct; no_dyn: no
+   getattr(x, "name") (known finding F02-28; effects of the deleted definition itself: F02-29, duck typing
+   through library protocols: F02-30 are outside this semantics). *)
+Theorem T02k_delete_unused_sound :
+  forall M, no_dyn M = true -> uniq_cls M = true ->
+  forall fuel, run_module fuel (du_model M) = run_module fuel M.
+Proof. exact delete_unused_sound. Qed.
+Print Assumptions T02k_delete_unused_sound.
+
+Theorem T02k_delete_unused_dynamic_refuted :
+  exists M, uniq_cls M = true /\ no_dyn M = false /\ run_module 9 (du_model M) <> run_module 9 M
+            /\ snd (run_module 9 M) = OOk.
+Proof. exact delete_unused_dynamic_refuted. Qed.
+Print Assumptions T02k_delete_unused_dynamic_refuted.
+
+Example T02k_delete_unused_example :
+  let M := mkMod [IFunc (mkFunc 1 0 [ACall RMod 2 0]); IFunc (mkFunc 2 0 [AEv 2]); IFunc (mkFunc 3 0 [ACall RMod 3 0]);
+                  IClass (mkCls 1 None [mkMeth 50 KPlain 1 [AEv 5]; mkMeth 1 KPlain 1 [AUse]; mkMeth 2 KPlain 1 []] []);
+                  IClass (mkCls 2 None [mkMeth 1 KPlain 1 []] [])] [] []
+                 [ACall (RNew 1) 1 0; ACall RMod 1 0] in
+  no_dyn M = true /\ uniq_cls M = true /\ length (m_items (du_model M)) = 3
+  /\ run_module 20 M = ([TEv 5; TUse (SInst 1); TEv 2], OOk).
+Proof. repeat split; reflexivity. Qed.
+
+
+(* T02k.9  object_oriented.move_staticmethod_static_scope (after repairs cb0c976 .. 87eaee7), resolution level:
+   a static method x of class k that the rule moves under the new name n IS, in the output, the module-level
+   function n: same parameters, the (redirected) body of x, bound by nothing else (no other function, no stored
+   name) -- so a redirected access `C.m(args)` -> `n(args)` reaches the body that `C.m` reached (T02k.10), with
+   the same arity test and no first argument.  The whole-run equality of ms_model is NOT proved (correspondence
+   + CPython-validated semantics + oracle only). *)
+Theorem T02k_move_static_redirect :
+  forall M k x n,
+  uniq_cls M = true -> uniq_meths M = true -> nodup_names (map snd (ms_plan M)) = true ->
+  In k (classes M) -> c_base k = None -> In x (c_meths k) -> ms_new_name M k x = Some n ->
+  m_kind x = KStatic /\
+  resolve (ms_pass M) SNone None RMod n = TFn (moved_fn (ms_plan M) k x n) /\
+  f_params (moved_fn (ms_plan M) k x n) = m_params x /\
+  f_body (moved_fn (ms_plan M) k x n) = map (ms_act (ms_plan M) (Some (c_name k))) (m_body x).
+Proof. exact move_static_redirect. Qed.
+Print Assumptions T02k_move_static_redirect.
+
+Theorem T02k_move_static_original :
+  forall M k x n nargs,
+  uniq_cls M = true -> uniq_meths M = true -> wf_mod M = true ->
+  In k (classes M) -> c_base k = None -> In x (c_meths k) -> ms_new_name M k x = Some n ->
+  resolve M SNone None (RCls (c_name k)) (m_name x) = TMeth (ViaCls (c_name k)) (c_name k) x /\
+  bind (ViaCls (c_name k)) x nargs = (SNone, Nat.eqb (m_params x) nargs).
+Proof. exact move_static_original. Qed.
+Print Assumptions T02k_move_static_original.
+
+Example T02k_move_static_example :
+  let M := mkMod [IClass (mkCls 1 None [mkMeth 1 KStatic 0 [AEv 1]; mkMeth 2 KPlain 1 [ACall RSelf 1 0]] [])] [] []
+                 [ACall (RCls 1) 1 0; ACall (RNew 1) 2 0] in
+  ms_new_name M (mkCls 1 None [mkMeth 1 KStatic 0 [AEv 1]; mkMeth 2 KPlain 1 [ACall RSelf 1 0]] []) (mkMeth 1 KStatic 0 [AEv 1])
+    = Some (moved_name 1)
+  /\ run_module 20 (ms_model M) = run_module 20 M /\ run_module 20 M = ([TEv 1; TEv 1], OOk).
+Proof. repeat split; reflexivity. Qed.
+
+End Cls.
